@@ -70,7 +70,7 @@ Proof. exact child_env. Qed.
     cd <dir> && p1 && ... && pn && cmd. *)
 Theorem C15_command_composition : forall cc fs cmd k,
   rejected (cc_run cc) k = None -> truthy (want (cc_run cc) k Dry) = false ->
-  snd (fst (run_program cc (nest fs [SRun cmd k false])))
+  map o_started (snd (fst (run_program cc (nest fs [SRun cmd k false]))))
   = [Some (composed fs cmd, want (cc_run cc) k Shell,
            generate_env (want (cc_run cc) k Env) (want (cc_run cc) k ReplaceEnv) (cc_parent cc))].
 Proof. exact command_composition. Qed.
@@ -102,9 +102,11 @@ Proof. exact leaky_clause. Qed.
 
 (** Flagship, part B (full strength, no side condition): whole programs of nested
     cd / prefix / try blocks around run and sudo calls with arbitrary keyword
-    arguments, failing commands and raises of every kind -- the arguments of [start]
-    call by call (nothing for refused calls), the final stacks, the exception that
-    comes out -- are accepted by the executable specification. *)
+    arguments, failing commands and raises of every kind -- each call judged as in
+    part A (the arguments of [start] with the composed command, the resolved options
+    incl. timeout and the watchers sudo hands on, streams, echo; nothing started for
+    refused calls), the final stacks, the exception that comes out -- are accepted by
+    the executable specification. *)
 Theorem C15_program_meets_spec : forall cc prog,
   spec_ok_ctx cc prog (snd (fst (run_program cc prog))) (fst (fst (run_program cc prog)))
               (snd (run_program cc prog)) = true.
@@ -115,7 +117,7 @@ Proof. exact program_meets_spec. Qed.
     user flags -- below any nesting of blocks, with any further run keyword arguments. *)
 Theorem C15_sudo_wraps_prefixed : forall cc fs cmd u k,
   rejected (cc_run cc) k = None -> truthy (want (cc_run cc) k Dry) = false ->
-  snd (fst (run_program cc (nest fs [SSudo cmd u k false])))
+  map o_started (snd (fst (run_program cc (nest fs [SSudo cmd u k false]))))
   = [Some (sudo_wrapped cc u k (composed fs cmd), want (cc_run cc) k Shell,
            generate_env (want (cc_run cc) k Env) (want (cc_run cc) k ReplaceEnv) (cc_parent cc))].
 Proof. exact sudo_wraps_prefixed. Qed.
@@ -141,7 +143,7 @@ Example C15_example_program :
                   SBlock BTry [SBlock (BPrefix "p1") [SRun "false" no_kw true; SRun "never" no_kw false]];
                   SRun "x" (mkKw (fun _ => None) None ["bogus"]) false]];
                SRun "end" no_kw false] in
-  map (fun c => match c with Some (cmd, _, _) => cmd | None => "-"%string end)
+  map (fun c => match o_started c with Some (cmd, _, _) => cmd | None => "-"%string end)
       (snd (fst (run_program cc prog)))
   = ["cd /a/b\ c && p1 && ls"; "sudo -S -p 'P:' --preserve-env='X' -H -u bob cd /a && p1 && w";
      "cd /a && p1 && p1 && false"; "-"]%string /\
@@ -201,8 +203,8 @@ Theorem C15_before_fix_sudo_watchers_none_historical_refuted :
   exists cc k,
     sudo_refused_before_fix k = true /\
     expected_raise (cc_run cc) k false = None /\
-    run_program cc [SSudo "whoami" None k false]
-    = (c0, [Some ("sudo -S -p 'P:' whoami"%string, OStr "/bin/bash", [])], None).
+    map o_started (snd (fst (run_program cc [SSudo "whoami" None k false])))
+    = [Some ("sudo -S -p 'P:' whoami"%string, OStr "/bin/bash", [])].
 Proof. exact sudo_watchers_none_before_fix_refuted. Qed.
 
 (** * The command line: [Program.update_config] (Model/ProgramModel.v)
